@@ -38,7 +38,7 @@ def table_check(drv, violation, pid, cfg, info, seed, tier, viol_so_far):
     outs = []
 
     def compile_one(f):
-        return f, drv.run(['timeout', '900', 'coqc', '-R', coq, 'Verif', os.path.join(coq, f)], cwd=coq)
+        return f, drv.coqc_cached(f)
 
     with drv.Lock():
         # an entry of "table_proofs" that is itself a list is a group of files without dependencies among them: compiled in parallel
